@@ -53,9 +53,8 @@ def build(d):
         G.active_vertices_connected(s, arr, acyclic=d["acyclic"], use_graph_primitive=d["primitive"])
     else:
         n, edges = d["n"], [tuple(e) for e in d["edges"]]
-        g = G.Graph(n)
-        for u, v in edges:
-            g.add_edge(u, v)
+        from ._ea_common import mk_graph
+        g = mk_graph(n, edges, d.get("history"))
         items = _operands(s, n, d["mode"], d.get("consts", "v"))
         xv = list(s.variables)
         arg = BoolArray1D(items) if form == "array1d" else items
@@ -101,6 +100,12 @@ def instances(tier, rng):
             for prim in (False, True):
                 add("%s/vars/ac%d/pr%d" % (nm, acyclic, prim), form="graph", n=n, edges=es, mode="vars",
                     acyclic=acyclic, primitive=prim)
+    # histories: the Graph object was used (and its line graph taken) before its last edges were added
+    for nm, n, es in gl:
+        if len(es) >= 2 and n <= 6:
+            for acyclic in (False, True):
+                add("%s/vars/ac%d/pr0/hist" % (nm, acyclic), form="graph", n=n, edges=es, mode="vars", acyclic=acyclic, primitive=False,
+                    history=len(es) // 2)
     # operand styles on a subset of graphs
     sub = [g for g in gl if g[1] in (3, 4)][:: (3 if tier == "quick" else 1)]
     for nm, n, es in sub:
@@ -130,7 +135,7 @@ def instances(tier, rng):
 def spot(tier, rng):
     from . import _ea_common as E
     out = []
-    shapes = [(5, 5), (4, 7), (6, 6)] if tier == "quick" else [(5, 5), (4, 7), (7, 4), (6, 6), (5, 8), (7, 7), (3, 12)]
+    shapes = [(4, 4), (2, 8), (5, 5), (4, 7), (6, 6)] if tier == "quick" else [(4, 4), (2, 8), (8, 2), (5, 5), (4, 7), (7, 4), (6, 6), (5, 8), (7, 7), (3, 12)]
     for (h, w) in shapes:
         sp = E.spiral_path(h, w)
         pats = []
@@ -147,11 +152,16 @@ def spot(tier, rng):
         pats.append(grid_of(ring[:-1]))
         pats.append([True] * (h * w))
         pats.append([False] * (h * w))
+        for c in (0, h * w // 2, h * w - 1):                      # exactly one active cell
+            pats.append([k == c for k in range(h * w)])
+        pats.append([k in (0, h * w - 1) for k in range(h * w)])  # two far-apart cells
+        pats.append([k in (0, 1) for k in range(h * w)])          # two adjacent cells
         for _ in range(3):
             pats.append([rng.random() < 0.6 for _ in range(h * w)])
         for acyclic in (False, True):
-            out.append(dict(name="spot-grid%dx%d/ac%d" % (h, w, acyclic), form="grid", h=h, w=w, mode="vars", acyclic=acyclic,
-                            primitive=False, patterns=pats))
+            for prim in ((False,) if acyclic else (False, True)):
+                out.append(dict(name="spot-grid%dx%d/ac%d/pr%d" % (h, w, acyclic, prim), form="grid", h=h, w=w, mode="vars", acyclic=acyclic,
+                                primitive=prim, patterns=pats))
     for n in ((12, 16) if tier == "quick" else (12, 16, 24, 30)):
         for nm, es in (("path", [(i, i + 1) for i in range(n - 1)]), ("cycle", [(i, (i + 1) % n) for i in range(n)]),
                        ("midpath", [(2 * i % n if 2 * i < n else (2 * (n - 1 - i) + 1), 0) for i in range(0)])):
